@@ -1,24 +1,23 @@
 /-
   Soundness of the rational enclosure oracle `Spec.Encl`, part 4: the scaled exponential `expI`/`exp`
-  and the certified logarithm `log`.
+  and the certified logarithm `log`.  No side hypotheses: `expI` answers `none` when the reduced argument
+  leaves [−8, 8], and every `some` answer is a true enclosure.
 
   A positive real `T` lies in the scaled enclosure `s : Sci` when `T = z · 10^s.k` for some `z ∈ᵢ s.m`:
   `SciMem T s` (notation `T ∈ₛ s`).
 
   1. `expK a`, `expR a` : the decimal exponent and the reduced argument interval chosen by `expI a`;
-     `expI_eq a : expI a = ⟨expSmallI (expR a), expK a⟩`   (by `rfl`)
-     `InRange a` : |(expR a).lo| ≤ 20992 ∧ |(expR a).hi| ≤ 20992 (the range on which the Taylor/squaring
-     kernel is proved sound; `EnclosureRange.lean` derives it from bounds on `a` alone)
+     `expI_eq a : expI a = if −8 ≤ (expR a).lo && (expR a).hi ≤ 8 then some ⟨expSmallI (expR a), expK a⟩ else none`
+     `Guard a` : −8 ≤ (expR a).lo ∧ (expR a).hi ≤ 8;  `expI_of_guard`, `expI_some` (the two directions)
   2. `mem_expR`     : y ∈ᵢ a → (y − expK a · log 10) ∈ᵢ expR a
-     `expI_sound`   : y ∈ᵢ a → InRange a → Real.exp y ∈ₛ expI a
-     `exp_sound`    : InRange (I.pt x) → Real.exp x ∈ₛ exp x
+     `expI_sound`   : expI a = some s → y ∈ᵢ a → Real.exp y ∈ₛ s
+     `exp_sound`    : Encl.exp x = some s → Real.exp x ∈ₛ s
   3. `sciMem_le_hi`, `sciMem_ge_lo` : T ∈ₛ s → s.m.lo·10^s.k ≤ T ≤ s.m.hi·10^s.k
-     `expLe_sound`  : expLe g q k = true → InRange (I.pt g) → Real.exp g ≤ q·10^k
-     `expGe_sound`  : expGe g q k = true → InRange (I.pt g) → q·10^k ≤ Real.exp g
+     `expLe_sound`  : expLe g q k = true → Real.exp g ≤ q·10^k
+     `expGe_sound`  : expGe g q k = true → q·10^k ≤ Real.exp g
   4. `log_some`     : log q k = some l → expLe l.lo q k = true ∧ expGe l.hi q k = true
-     `log_sound`    : 0 < q → log q k = some l → InRange (I.pt l.lo) → InRange (I.pt l.hi) →
-                      Real.log (q·10^k) ∈ᵢ l
-  5. `expm1_sound`  : (1/64 < |x| → InRange (I.pt x)) → Real.exp x − 1 ∈ᵢ expm1 x
+     `log_sound`    : 0 < q → log q k = some l → Real.log (q·10^k) ∈ᵢ l
+  5. `expm1_sound`  : expm1 x = some v → Real.exp x − 1 ∈ᵢ v
 -/
 import D128.Proofs.EnclosureConst
 import D128.Proofs.EnclosureExp
@@ -36,10 +35,26 @@ def expK (a : I) : Int := (((a.lo + a.hi) / 2) / ((ln10.lo + ln10.hi) / 2)).floo
 /-- the reduced argument interval of `expI a` -/
 def expR (a : I) : I := a.sub (ln10.scale ((expK a : Int) : Rat))
 
-theorem expI_eq (a : I) : expI a = ⟨expSmallI (expR a), expK a⟩ := rfl
+theorem expI_eq (a : I) :
+    expI a = if -8 ≤ (expR a).lo && (expR a).hi ≤ 8 then some ⟨expSmallI (expR a), expK a⟩ else none := rfl
 
-/-- the reduced argument stays in the range on which `expSmall` is proved sound -/
-def InRange (a : I) : Prop := |(expR a).lo| ≤ 20992 ∧ |(expR a).hi| ≤ 20992
+/-- the guard of `expI`: the reduced argument lies in [−8, 8] -/
+def Guard (a : I) : Prop := -8 ≤ (expR a).lo ∧ (expR a).hi ≤ 8
+
+theorem expI_of_guard {a : I} (h : Guard a) : expI a = some ⟨expSmallI (expR a), expK a⟩ := by
+  rw [expI_eq]
+  have : (decide (-8 ≤ (expR a).lo) && decide ((expR a).hi ≤ 8)) = true := by
+    simp only [Bool.and_eq_true, decide_eq_true_eq]; exact h
+  rw [if_pos this]
+
+theorem expI_some {a : I} {s : Sci} (h : expI a = some s) :
+    Guard a ∧ s = ⟨expSmallI (expR a), expK a⟩ := by
+  rw [expI_eq] at h
+  split at h
+  · rename_i hg
+    simp only [Bool.and_eq_true, decide_eq_true_eq] at hg
+    exact ⟨hg, (Option.some.inj h).symm⟩
+  · exact absurd h (by simp)
 
 /-- `T = z·10^k` with `z` in the mantissa interval -/
 def SciMem (T : ℝ) (s : Sci) : Prop := ∃ z : ℝ, z ∈ᵢ s.m ∧ T = z * (10 : ℝ) ^ s.k
@@ -61,16 +76,24 @@ theorem mem_expR {a : I} {y : ℝ} (hy : y ∈ᵢ a) : (y - (expK a : ℝ) * Rea
 theorem exp_int_mul_log10 (k : Int) : Real.exp ((k : ℝ) * Real.log 10) = (10 : ℝ) ^ k := by
   rw [← Real.log_zpow, Real.exp_log (zpow_pos (by norm_num) k)]
 
-theorem expI_sound (a : I) (y : ℝ) (hy : y ∈ᵢ a) (hr : InRange a) : Real.exp y ∈ₛ expI a := by
-  rw [expI_eq, sciMem_mk]
-  refine ⟨Real.exp (y - (expK a : ℝ) * Real.log 10), expSmallI_sound _ _ (mem_expR hy) hr.1 hr.2, ?_⟩
+theorem guard_abs {a : I} (h : Guard a) (hle : (expR a).lo ≤ (expR a).hi) :
+    |(expR a).lo| ≤ 20992 ∧ |(expR a).hi| ≤ 20992 := by
+  obtain ⟨h1, h2⟩ := h
+  constructor <;> rw [abs_le] <;> constructor <;> linarith
+
+theorem expI_sound {a : I} {s : Sci} {y : ℝ} (h : expI a = some s) (hy : y ∈ᵢ a) : Real.exp y ∈ₛ s := by
+  obtain ⟨hg, rfl⟩ := expI_some h
+  have hm := mem_expR hy
+  obtain ⟨b1, b2⟩ := guard_abs hg (lo_le_hi_of_mem hm)
+  rw [sciMem_mk]
+  refine ⟨Real.exp (y - (expK a : ℝ) * Real.log 10), expSmallI_sound _ _ hm b1 b2, ?_⟩
   rw [← exp_int_mul_log10, ← Real.exp_add]
   congr 1; ring
 
 theorem exp_eq (x : ℚ) : Encl.exp x = expI (I.pt x) := rfl
 
-theorem exp_sound (x : ℚ) (hr : InRange (I.pt x)) : Real.exp (x : ℝ) ∈ₛ Encl.exp x := by
-  rw [exp_eq]; exact expI_sound _ _ (mem_pt x) hr
+theorem exp_sound {x : ℚ} {s : Sci} (h : Encl.exp x = some s) : Real.exp (x : ℝ) ∈ₛ s := by
+  rw [exp_eq] at h; exact expI_sound h (mem_pt x)
 
 /-! ## 3. the two one-sided tests -/
 
@@ -86,34 +109,45 @@ theorem pow10_cast (e : Int) : ((pow10 e : ℚ) : ℝ) = (10 : ℝ) ^ e := by
   rw [pow10_eq_zpow]; push_cast; rfl
 
 theorem expLe_eq (g q : ℚ) (k : Int) :
-    expLe g q k = decide ((Encl.exp g).m.hi * pow10 ((Encl.exp g).k - k) ≤ q) := rfl
+    expLe g q k = match Encl.exp g with
+      | none => false
+      | some e => decide (e.m.hi * pow10 (e.k - k) ≤ q) := rfl
 
 theorem expGe_eq (g q : ℚ) (k : Int) :
-    expGe g q k = decide ((Encl.exp g).m.lo * pow10 ((Encl.exp g).k - k) ≥ q) := rfl
+    expGe g q k = match Encl.exp g with
+      | none => false
+      | some e => decide (e.m.lo * pow10 (e.k - k) ≥ q) := rfl
 
-theorem expLe_sound {g q : ℚ} {k : Int} (h : expLe g q k = true) (hr : InRange (I.pt g)) :
+theorem expLe_sound {g q : ℚ} {k : Int} (h : expLe g q k = true) :
     Real.exp (g : ℝ) ≤ (q : ℝ) * (10 : ℝ) ^ k := by
-  rw [expLe_eq, decide_eq_true_eq] at h
-  have h' : (((Encl.exp g).m.hi * pow10 ((Encl.exp g).k - k) : ℚ) : ℝ) ≤ (q : ℝ) := by exact_mod_cast h
+  rw [expLe_eq] at h
+  split at h
+  · exact absurd h (by simp)
+  rename_i s hs
+  rw [decide_eq_true_eq] at h
+  have h' : ((s.m.hi * pow10 (s.k - k) : ℚ) : ℝ) ≤ (q : ℝ) := by exact_mod_cast h
   rw [Rat.cast_mul, pow10_cast, zpow_sub₀ (by norm_num)] at h'
   have hk : (0 : ℝ) < (10 : ℝ) ^ k := zpow_pos (by norm_num) k
-  have h1 := sciMem_le_hi (exp_sound g hr)
-  calc Real.exp (g : ℝ) ≤ ((Encl.exp g).m.hi : ℝ) * (10 : ℝ) ^ (Encl.exp g).k := h1
-    _ = ((Encl.exp g).m.hi : ℝ) * ((10 : ℝ) ^ (Encl.exp g).k / (10 : ℝ) ^ k) * (10 : ℝ) ^ k := by
-        field_simp
+  have h1 := sciMem_le_hi (exp_sound hs)
+  calc Real.exp (g : ℝ) ≤ (s.m.hi : ℝ) * (10 : ℝ) ^ s.k := h1
+    _ = (s.m.hi : ℝ) * ((10 : ℝ) ^ s.k / (10 : ℝ) ^ k) * (10 : ℝ) ^ k := by field_simp
     _ ≤ (q : ℝ) * (10 : ℝ) ^ k := mul_le_mul_of_nonneg_right h' hk.le
 
-theorem expGe_sound {g q : ℚ} {k : Int} (h : expGe g q k = true) (hr : InRange (I.pt g)) :
+theorem expGe_sound {g q : ℚ} {k : Int} (h : expGe g q k = true) :
     (q : ℝ) * (10 : ℝ) ^ k ≤ Real.exp (g : ℝ) := by
-  rw [expGe_eq, decide_eq_true_eq] at h
-  have h' : (q : ℝ) ≤ (((Encl.exp g).m.lo * pow10 ((Encl.exp g).k - k) : ℚ) : ℝ) := by exact_mod_cast h
+  rw [expGe_eq] at h
+  split at h
+  · exact absurd h (by simp)
+  rename_i s hs
+  rw [decide_eq_true_eq] at h
+  have h' : (q : ℝ) ≤ ((s.m.lo * pow10 (s.k - k) : ℚ) : ℝ) := by exact_mod_cast h
   rw [Rat.cast_mul, pow10_cast, zpow_sub₀ (by norm_num)] at h'
   have hk : (0 : ℝ) < (10 : ℝ) ^ k := zpow_pos (by norm_num) k
-  have h1 := sciMem_ge_lo (exp_sound g hr)
+  have h1 := sciMem_ge_lo (exp_sound hs)
   calc (q : ℝ) * (10 : ℝ) ^ k
-      ≤ ((Encl.exp g).m.lo : ℝ) * ((10 : ℝ) ^ (Encl.exp g).k / (10 : ℝ) ^ k) * (10 : ℝ) ^ k :=
+      ≤ (s.m.lo : ℝ) * ((10 : ℝ) ^ s.k / (10 : ℝ) ^ k) * (10 : ℝ) ^ k :=
         mul_le_mul_of_nonneg_right h' hk.le
-    _ = ((Encl.exp g).m.lo : ℝ) * (10 : ℝ) ^ (Encl.exp g).k := by field_simp
+    _ = (s.m.lo : ℝ) * (10 : ℝ) ^ s.k := by field_simp
     _ ≤ Real.exp (g : ℝ) := h1
 
 /-! ## 4. the certified logarithm -/
@@ -125,33 +159,35 @@ theorem log_some {q : ℚ} {k : Int} {l : I} (h : Encl.log q k = some l) :
   obtain ⟨hc, rfl⟩ := h
   exact hc
 
-theorem log_sound {q : ℚ} {k : Int} {l : I} (hq : 0 < q) (h : Encl.log q k = some l)
-    (hlo : InRange (I.pt l.lo)) (hhi : InRange (I.pt l.hi)) :
+theorem log_sound {q : ℚ} {k : Int} {l : I} (hq : 0 < q) (h : Encl.log q k = some l) :
     Real.log ((q : ℝ) * (10 : ℝ) ^ k) ∈ᵢ l := by
   obtain ⟨h1, h2⟩ := log_some h
   have hpos : (0 : ℝ) < (q : ℝ) * (10 : ℝ) ^ k :=
     mul_pos (by exact_mod_cast hq) (zpow_pos (by norm_num) k)
-  exact ⟨(Real.le_log_iff_exp_le hpos).2 (expLe_sound h1 hlo),
-         (Real.log_le_iff_le_exp hpos).2 (expGe_sound h2 hhi)⟩
+  exact ⟨(Real.le_log_iff_exp_le hpos).2 (expLe_sound h1),
+         (Real.log_le_iff_le_exp hpos).2 (expGe_sound h2)⟩
 
 /-! ## 5. `expm1` -/
 
-theorem expm1_sound (x : ℚ) (hr : 1 / 64 < |x| → InRange (I.pt x)) :
-    (Real.exp (x : ℝ) - 1) ∈ᵢ expm1 x := by
-  unfold expm1
-  rw [ite_neg_eq_abs]
-  split
-  · rename_i h
-    exact expm1Tiny_sound x (le_trans h (by norm_num))
-  · rename_i h
-    have hs := exp_sound x (hr (not_le.1 h))
-    have h1 := sciMem_le_hi hs
-    have h2 := sciMem_ge_lo hs
-    simp only
-    constructor
-    · apply rdDown_le_real
-      rw [Rat.cast_sub, Rat.cast_mul, pow10_cast]; push_cast; linarith
-    · apply le_rdUp_real
-      rw [Rat.cast_sub, Rat.cast_mul, pow10_cast]; push_cast; linarith
+theorem expm1_sound {x : ℚ} {v : I} (h : Encl.expm1 x = some v) : (Real.exp (x : ℝ) - 1) ∈ᵢ v := by
+  unfold Encl.expm1 at h
+  rw [ite_neg_eq_abs] at h
+  split at h
+  · rename_i hx
+    obtain rfl := Option.some.inj h
+    exact expm1Tiny_sound x (le_trans hx (by norm_num))
+  · split at h
+    · exact absurd h (by simp)
+    · rename_i s hs
+      obtain rfl := Option.some.inj h
+      have hsnd := exp_sound hs
+      have h1 := sciMem_le_hi hsnd
+      have h2 := sciMem_ge_lo hsnd
+      rw [mem_mk]
+      constructor
+      · apply rdDown_le_real
+        rw [Rat.cast_sub, Rat.cast_mul, pow10_cast]; push_cast; linarith
+      · apply le_rdUp_real
+        rw [Rat.cast_sub, Rat.cast_mul, pow10_cast]; push_cast; linarith
 
 end EnclPf
